@@ -285,7 +285,7 @@ PROPS = {
     "C14": dict(
         pkg="c14", level="exploration", journal_cases=True,
         tests=[T("TestC14", Q(16, timeout=300, shards=4, shrinktime="30s"), Q(80, timeout=1500, shards=16, shrinktime="90s")),
-               T("TestC14Odd", Q(10, timeout=200, shrinktime="10s"), Q(60, timeout=600, shards=2, shrinktime="30s")),
+               T("TestC14Odd", Q(10, timeout=400, shrinktime="10s"), Q(60, timeout=600, shards=2, shrinktime="30s")),
                T("TestC14Race", Q(10000), Q(100000, timeout=900, shards=4)),
                T("TestC14RaceReplicas", Q(20000), Q(200000, timeout=900, shards=4)),
                T("TestC14RaceExhaustive", Q(0, timeout=300), Q(0, timeout=1200)),
